@@ -56,6 +56,15 @@ def gen_streams(rng, n_http, n_rpc, maxlen):
             struct.pack("!II", 1, cl) + bytes(rng.getrandbits(8) for _x in range(cl)) + struct.pack("!II", rng.choice([0, 1]), vl) + \
             bytes(rng.getrandbits(8) for _x in range(vl)) + bytes(rng.choice([0, 4, 8]))
         out.append(("rpc_odd", rpc.record(m), None, True, None))
+    # requests followed by a body (in the same segment or not): the reply is due at the blank line, under every cut
+    for _ in range(2):
+        p = http.gen_parts(rng, verb=rng.choice(["POST", "PUT", "PATCH"]), max_target=12, max_headers=1)
+        body = bytes(rng.choice(b"abcdef=&0123456789") for _x in range(rng.randrange(1, 30)))
+        p["headers"].append((b"Content-Length", b" %d" % len(body)))
+        p["eols"].insert(1, p["eols"][0])
+        head = http.build(p)
+        if len(head) + len(body) <= maxlen + 40:
+            out.append(("http", head + body, len(head) - 1, True, None))
     # record marks that misstate the length of the call (shorter, longer, zero): how such a stream is treated is the
     # responder's business - but it is the same business under every segmentation (trigger calibrated from the byte-wise run)
     for _ in range(2):
@@ -150,7 +159,8 @@ def run_sessions(ctx, cfg, stream, plans):
                 if (e.cip, sp) not in used:       # every session is a flow of its own (the table is not reset in between)
                     used.add((e.cip, sp))
                     break
-            isn = rng.getrandbits(32)
+            # some sessions start so close to 2^32 that the client's sequence numbers wrap inside the request
+            isn = rng.getrandbits(32) if rng.random() < 0.85 else (0xFFFFFFFF - rng.randrange(0, max(2, len(stream) + 2))) & 0xFFFFFFFF
             flows.append((e, sp, dp, isn))
             syns.append(e.tcp(sp, dp, isn, 0, SYN))
         # the table is reset once per stream only: the sessions of a stream pile up (thousands of control blocks), and
